@@ -29,12 +29,8 @@ def tokens : Nat → List Char → List Tok
   | 0, _ => []
   | _, [] => []
   | fuel + 1, c :: cs =>
-    if isAlpha c then
-      let (a, r) := spanP isAlpha cs
-      .alpha (c :: a) :: tokens fuel r
-    else if isDigit c then
-      let (a, r) := spanP isDigit cs
-      .num (c :: a) :: tokens fuel r
+    if isAlpha c then .alpha (c :: (spanP isAlpha cs).1) :: tokens fuel (spanP isAlpha cs).2
+    else if isDigit c then .num (c :: (spanP isDigit cs).1) :: tokens fuel (spanP isDigit cs).2
     else if c = '~' then .tilde :: tokens fuel cs
     else tokens fuel cs
 
@@ -90,14 +86,18 @@ def cut (sep : Char) : List Char → List Char × Option (List Char)
   | c :: cs => if c = sep then ([], some cs) else
     let (h, t) := cut sep cs; (c :: h, t)
 
-/-- `version.NewVersion`. -/
+/-- `version.NewVersion`: the epoch is what stands before the first `:` (0
+    when there is none or `Atoi` fails on it), the version what stands before
+    the first `-` of the remainder, the release what follows it. -/
 def newVersion (s : List Char) : Rpm :=
-  let (epoch, rest) := match cut ':' s with
-    | (_, none) => ((0 : Int), s)
-    | (e, some r) => ((atoi (dropSpace e)).getD 0, r)
-  match cut '-' rest with
-  | (v, none) => { epoch := epoch, version := v, release := [] }
-  | (v, some r) => { epoch := epoch, version := v, release := r }
+  let c := cut ':' s
+  let epoch : Int := match c.2 with
+    | none => 0
+    | some _ => (atoi (dropSpace c.1)).getD 0
+  let rest := match c.2 with
+    | none => s
+    | some r => r
+  { epoch := epoch, version := (cut '-' rest).1, release := (cut '-' rest).2.getD [] }
 
 /-- `Version.Compare` of go-rpm-version. -/
 def rpmCmp (a b : Rpm) : Ordering :=
@@ -140,5 +140,29 @@ def project (t : Tag) (min : Bool) : Version :=
 
 /-- `(*Version).Compare`. -/
 def cmp (a b : Tag) : Ordering := rpmCmp (newVersion a.original) (newVersion b.original)
+
+/-! ### the fragment on which the projection is monotone -/
+
+/-- The tokens after the optional `v` (when `v` is asked for, it must be there). -/
+def afterV (v : Bool) (toks : List Tok) : Option (List Tok) :=
+  if v then (match toks with
+    | .alpha ['v'] :: r => some r
+    | _ => none)
+  else some toks
+
+/-- `plain v t`: the text has no `:`; the rpm tokens of its version part (the
+    text before the first `-`) are — after a `v` token iff `v` — the number
+    `Major`, then either nothing (and `Minor = 0`) or the number `Minor`; both
+    numbers below 2^31. -/
+def plain (v : Bool) (t : Tag) : Bool :=
+  !t.original.contains ':' &&
+  (match afterV v (tokens (cut '-' t.original).1.length (cut '-' t.original).1) with
+   | some (.num dM :: rest) =>
+     decide ((natOfDigits dM : Int) = t.major) && decide (t.major < 2147483648) &&
+     (match rest with
+      | [] => decide (t.minor = 0)
+      | .num dm :: _ => decide ((natOfDigits dm : Int) = t.minor) && decide (t.minor < 2147483648)
+      | _ => false)
+   | _ => false)
 
 end ClairModel.RhcTag
